@@ -264,6 +264,18 @@ func open(c OpenCase, shareP, shareR client.NonceShare) (chs [2]*client.Channel,
 	}
 	var prop client.ChannelProposal
 	alloc := sim.MakeAlloc(assets, big2(c.Bals))
+	// "the ID depends on a nonce contribution from each side": a proposal made
+	// without an explicit share gets a fresh random one - also when a program
+	// keeps its options in one value and makes several proposals from it
+	{
+		single := client.WithApp(app, data)
+		peers := []map[wallet.BackendID]wire.Address{w.a.WireAddr, w.b.WireAddr}
+		q1, e1 := client.NewLedgerChannelProposal(c.Challenge, addrMap(w.a), alloc, peers, single)
+		q2, e2 := client.NewLedgerChannelProposal(c.Challenge, addrMap(w.a), alloc, peers, single)
+		if e1 == nil && e2 == nil && q1.NonceShare == q2.NonceShare {
+			return chs, props, w, 0, h.Failf("nonce-share-repeated", "two proposals made from the same options value (no explicit nonce) carry the same nonce share %x: the proposer contributes nothing new to the second channel's id", q1.NonceShare[:8])
+		}
+	}
 	switch c.Kind {
 	case "ledger":
 		if c.UseFund {
